@@ -13,4 +13,7 @@ package midi
 
 //@ func PitchBendEvent
 //@   ensures [C05,C06] len(result) == 3 && result[0] == 0xE0 | channel && result[1] <= 127 && result[2] <= 127
+//@   ensures [C06] val == 0.0 ==> result[1] == 0 && result[2] == 64
+//@   ensures [C06] val == 1.0 ==> result[1] == 127 && result[2] == 127
+//@   ensures [C06] val == -1.0 ==> result[1] == 0 && result[2] == 0
 //@   modifies nothing
